@@ -105,4 +105,49 @@ theorem access_agree (T : Nat) (hT : legalThreshold T = true) (a : Arr) (ctr : N
     have hc : (ATree.hdr d t).count = (ATree.flatten d t).length := h.shape.count_eq_length
     exact (get_gen hT d t true i h.shape).1 (by rw [← hc]; exact hi)
 
+/-! ### Non-vacuity
+
+`Atree.Example.arr4` is the array obtained by running the model for `T = 256`: `NewArray`, then four
+appends of 100-byte elements; the fourth append splits the root, so `arr4` has a root index slab
+over two data slabs.  `arr4_inv` proves `ArrInv 256 arr4 3` directly from the definitions, so the
+hypotheses of the theorems above are satisfiable by a multi-slab tree. -/
+section NonVacuity
+open Atree.Example
+
+example : run4 = .ok (arr4, 3) := run4_eq
+example : arr4.d = 1 := rfl
+example : arr4.toList = [elem 0, elem 1, elem 2, elem 3] := rfl
+example : legalThreshold T0 = true := legal
+example : ArrInv T0 arr4 3 := arr4_inv
+
+/-- `inv_new` applies, and agrees with the first step of the run. -/
+example : ArrInv T0 (Arr.new 1 0 ctx0).1 (Arr.new 1 0 ctx0).2.ctr := inv_new T0 1 0 ctx0 legal
+
+/-- The hypotheses of `inv_insert` are met by `arr4`; the insert succeeds and preserves `ArrInv`. -/
+example : ∃ a' c', arr4.insert T0 2 (elem 9) ⟨3, [], []⟩ = .ok (a', c') ∧ ArrInv T0 a' c'.ctr := by
+  obtain ⟨a', c', h1, _⟩ := arr_insert_ok legal arr4 ⟨3, [], []⟩ 2 (elem 9) (value_ok 9) arr4_inv
+    (by decide) (by decide)
+  exact ⟨a', c', h1, inv_insert T0 legal arr4 _ 2 (elem 9) (value_ok 9) arr4_inv a' c' h1⟩
+
+/-- Same for `inv_set` (overwriting with a value too large to inline) and `inv_remove`. -/
+example : ∃ old a' c', arr4.set T0 3 ⟨5000, .val 7⟩ ⟨3, [], []⟩ = .ok (old, a', c') ∧
+    ArrInv T0 a' c'.ctr := by
+  obtain ⟨a', c', h1, _⟩ := arr_set_ok legal arr4 ⟨3, [], []⟩ 3 ⟨5000, .val 7⟩
+    ⟨by decide, 7, rfl⟩ arr4_inv (by decide)
+  exact ⟨_, a', c', h1, inv_set T0 legal arr4 _ 3 _ ⟨by decide, 7, rfl⟩ arr4_inv _ a' c' h1⟩
+
+example : ∃ old a' c', arr4.remove T0 0 ⟨3, [], []⟩ = .ok (old, a', c') ∧ ArrInv T0 a' c'.ctr := by
+  obtain ⟨a', c', h1, _⟩ := arr_remove_ok legal arr4 ⟨3, [], []⟩ 0 arr4_inv (by decide)
+  exact ⟨_, a', c', h1, inv_remove T0 legal arr4 _ 0 arr4_inv _ a' c' h1⟩
+
+example : arr4.iterReadOnly = arr4.toList := (access_agree T0 legal arr4 3 arr4_inv).1
+
+/-- a data slab of 321 ≥ T bytes with three 100-byte elements -/
+example : 2 ≤ (⟨⟨⟨1, 2⟩, 321, 3⟩, SlabID.undef, [elem 0, elem 1, elem 2], false, false⟩ : DataSlab).elems.length :=
+  full_slab_has_two_elems T0 legal _ (by decide) (fun e he => by
+    simp only [List.mem_cons, List.not_mem_nil, or_false] at he
+    rcases he with rfl | rfl | rfl <;> exact elem_ok _) (by decide)
+
+end NonVacuity
+
 end Atree.C05
